@@ -1,6 +1,6 @@
 //! C04 — NaN-stripped views are sound for every stride and element type.
 use ndarray::prelude::*;
-use ndarray_stats::interpolate::Lower;
+use ndarray_stats::interpolate::{Higher, Lower, Midpoint, Nearest};
 use ndarray_stats::{MaybeNan, MaybeNanExt, QuantileExt};
 use noisy_float::types::{n32, n64, N32, N64};
 use nsmc::layouts::{all_layouts, guards_intact, lanes_flat, Host, Host1, Layout};
@@ -16,6 +16,10 @@ pub trait MN: MaybeNan + Clone + Debug + Send + Sync + 'static {
     /// exact bit pattern (distinguishes NaN payloads / signs); defaults to the key
     fn bits(&self) -> i128 {
         self.key()
+    }
+    /// infinite float (arithmetic between two of them is NaN by IEEE rules)
+    fn is_inf(&self) -> bool {
+        false
     }
 }
 
@@ -43,6 +47,9 @@ macro_rules! mn_float {
             }
             fn bits(&self) -> i128 {
                 self.to_bits() as i128
+            }
+            fn is_inf(&self) -> bool {
+                self.is_infinite()
             }
             fn key(&self) -> i128 {
                 if self.is_nan() {
@@ -248,7 +255,7 @@ struct NdCase {
 
 fn run_nd<A: MN>(c: &NdCase, lx: &mut Local)
 where
-    A::NotNan: Clone + Ord,
+    A::NotNan: Clone + Ord + num_traits::NumOps + num_traits::FromPrimitive,
 {
     let n: usize = c.shape.iter().product();
     let data: Vec<A> = (0..n).map(|i| A::mk(c.mask >> i & 1 == 1, (i * 7) % 11)).collect();
@@ -288,14 +295,32 @@ where
         if let Err(i) = guards_intact(&before, &after, &offs, |x, y| x == y) {
             lx.fail("C04/nd-guard-cell-modified", || format!("{}: parent cell {} outside the view changed", desc(), i));
         }
-        // (b) quantile_axis_skipnan_mut (Lower, q = 0.5)
+        hash_of(&obs)
+    });
+    // (b) quantile_axis_skipnan_mut: strategy, q and pivot policy rotate with the case, so that every
+    //     combination meets every mask and layout many times (integral and fractional positions,
+    //     both neighbours needed or only one)
+    let salt = (c.mask as usize).wrapping_mul(31).wrapping_add(c.axis * 7).wrapping_add(c.layout.pad as usize).wrapping_add(c.layout.steps.iter().fold(0usize, |a, s| a.wrapping_mul(5).wrapping_add((*s + 2) as usize)));
+    // Midpoint does arithmetic on the two neighbours: between infinite values that is NaN by IEEE
+    // rules (inf - inf), which is not what this property is about: Nearest is used for such data
+    let strat = if salt % 4 == 2 && data.iter().any(|x| x.is_inf()) { 3 } else { salt % 4 };
+    let q = [0.5, 0.0, 1.0, 0.25, 0.75][(salt / 4) % 5];
+    let policy = [Policy::Middle, Policy::First, Policy::Last][(salt / 20) % 3];
+    lx.explore(&PivotMode::Bounded { policy, bound: 0 }, |lx| {
         let mut h = Host::new(&c.shape, &data, &c.layout, A::mk(false, 300));
         let r = guarded(|| {
             let mut v = h.view_mut();
-            v.quantile_axis_skipnan_mut(Axis(c.axis), n64(0.5), &Lower)
+            match strat {
+                0 => v.quantile_axis_skipnan_mut(Axis(c.axis), n64(q), &Lower),
+                1 => v.quantile_axis_skipnan_mut(Axis(c.axis), n64(q), &Higher),
+                2 => v.quantile_axis_skipnan_mut(Axis(c.axis), n64(q), &Midpoint),
+                _ => v.quantile_axis_skipnan_mut(Axis(c.axis), n64(q), &Nearest),
+            }
         });
+        let sname = ["Lower", "Higher", "Midpoint", "Nearest"][strat];
+        let mut obs = Vec::new();
         match r {
-            Err(m) => lx.fail("C04/nd-panic", || format!("quantile_axis_skipnan_mut panicked on {}: {}", desc(), m)),
+            Err(m) => lx.fail("C04/nd-panic", || format!("quantile_axis_skipnan_mut(q={}, {}) panicked on {}: {}", q, sname, desc(), m)),
             Ok(Err(e)) => {
                 lx.check(c.shape[c.axis] == 0, "C04/nd-quantile-error", || format!("{}: {:?}", desc(), e));
             }
@@ -305,11 +330,33 @@ where
                     let mut ks: Vec<(i128, A)> = lane.iter().map(|&i| (data[i].key(), data[i].clone())).filter(|k| k.0 != i128::MIN).collect();
                     // order by value: keys of the non-missing test values are monotone in the value for every type used here
                     ks.sort_by(|a, b| a.1.try_as_not_nan().unwrap().cmp(b.1.try_as_not_nan().unwrap()));
-                    let want = if ks.is_empty() { i128::MIN } else { ks[(ks.len() - 1) / 2].0 };
-                    if li < flat.len() {
-                        lx.check(flat[li] == want, "C04/nd-quantile-value", || format!("{}: lane {} median(Lower) key {}, expected {}", desc(), li, flat[li], want));
+                    if li >= flat.len() {
+                        continue;
                     }
+                    if ks.is_empty() {
+                        lx.check(flat[li] == i128::MIN, "C04/nd-quantile-value", || format!("{}: lane {} has no value but the result is key {}", desc(), li, flat[li]));
+                        continue;
+                    }
+                    // q is dyadic, so (m - 1) q is exact
+                    let pos = (ks.len() - 1) as f64 * q;
+                    let (lo, hi) = (ks[pos.floor() as usize].0, ks[pos.ceil() as usize].0);
+                    let ok = match strat {
+                        0 => flat[li] == lo,
+                        1 => flat[li] == hi,
+                        3 => flat[li] == if pos - pos.floor() < 0.5 { lo } else { hi },
+                        _ => {
+                            // (keys are injective, not monotone: between distinct neighbours only
+                            // "a value came back" is required here; the value itself is C01 / C14)
+                            if lo == hi {
+                                flat[li] == lo
+                            } else {
+                                flat[li] != i128::MIN
+                            }
+                        }
+                    };
+                    lx.check(ok, "C04/nd-quantile-value", || format!("{}: lane {} quantile(q={}, {}) has key {}, neighbours {} / {}", desc(), li, q, sname, flat[li], lo, hi));
                 }
+                obs = flat;
             }
         }
         hash_of(&obs)
@@ -375,6 +422,7 @@ where
     }
     made
 }
+
 
 fn main() {
     let mut rep = Report::new("C04");
